@@ -240,8 +240,10 @@ def bc_def_1d(check, proj):
         dec("BC-DEF", f, A, p1, pp, "outsub_nrcbc: pressure == imposed p", "p")
         dec("BC-DEF", f, A, p1 / A.pow(r1, gam), p / A.pow(rho, gam), "outsub_nrcbc: entropy p/rho^gamma == interior entropy", "entropy")
         a0, a1 = A.sqrt(gam * p / rho), A.sqrt(gam * p1 / r1)
-        dec("BC-DEF", f, A, u1 - d * 2 * a1 / (gam - 1), u - d * 2 * a0 / (gam - 1),
-            "outsub_nrcbc: u - dir*2a/(gamma-1), the invariant conserved across the outgoing acoustic wave, == interior value (boundary and interior states are connected by the outgoing simple wave: nothing is reflected)", "invariant")
+        # the same outgoing invariant as for insub_cbc: carried by the characteristic that leaves the
+        # domain through this boundary (C+ on the right, C- on the left)
+        dec("BC-DEF", f, A, u1 + d * 2 * a1 / (gam - 1), u + d * 2 * a0 / (gam - 1),
+            "outsub_nrcbc: outgoing Riemann invariant u + dir*2a/(gamma-1) == interior value", "invariant")
     if "outsub_rh" in reg:
         f = reg["outsub_rh"]
         ctx, A, gam, d, W = setup()
@@ -387,7 +389,7 @@ def body(check):
                          "states and parameters; regimes (ptot >= p) are parametrised, not sampled")
     check.trusted += ["definitions of total pressure / total temperature / invariants transcribed from the statement (c16.totals)"]
     check.assume("regimes: inlets ptot >= p and qtot outlet p <= interior ptot (the max(0,.) clamp is inactive); admissible states")
-    check.assume("outsub_nrcbc: 'outgoing invariant' is read as the invariant conserved across the outgoing acoustic wave, u - dir*2a/(gamma-1), which is what makes the condition non-reflecting (test_acousticpacket_bcout relies on it)")
+    check.assume("'outgoing Riemann invariant' (insub_cbc, outsub_nrcbc) is u + dir*2a/(gamma-1): the invariant of the characteristic of speed u + dir*a, which leaves the domain through a boundary of outward normal dir")
     reg_bc(check)
     for key in ("euler1d", "shallowwater", "euler2d"):
         check.guarded("BC-EQUIVARIANT", key, lambda: equivariant(check, key))
